@@ -29,6 +29,9 @@ package logging
 //@   ensures err == nil && old(mc.r).Value is *observer.LoggedEntry && old(mc.r).Value.(*observer.LoggedEntry) != nil      #entry-in-cursor-cell
 //@   ensures RingOf(mc.r) == RingOf(old(mc.r)) && (old(mc.r).next != nil ==> mc.r == old(mc.r).next)                         #cursor-advanced-by-one
 //@   ensures FamInv()                                                                                                         #cursor-agreement-kept
+// the cell holds exactly what was written: the entry header and the fields handed in (not a mix with the previous occupant)
+//@   ensures len(old(mc.r).Value.(*observer.LoggedEntry).Context) == len(fields) && (forall i :: 0 <= i && i < len(fields) ==> old(mc.r).Value.(*observer.LoggedEntry).Context[i] == fields[i])      #entry-carries-the-fields-written
+//@   ensures old(mc.r).Value.(*observer.LoggedEntry).Entry == ent                                                             #entry-carries-the-header-written
 
 //@ func (*MemCore).clone(mc) returns (c)
 //@   props C20
